@@ -361,6 +361,94 @@ def run(ctx):
         r.ok("AbstractHelp.render: layout = BlockLayout() is a local")
     else:
         r.fail(ab, ab.node, "layout lifetime", "the help renderer keeps its layout between renders: a second render repeats or loses elements")
+
+    # ---------------------------------------------------------------- R6
+    r = ctx.rule("C13-R6", "RANGE", "the wrapping width pays for every prefix that is put in front of a wrapped line outside the wrapper: each "
+                 "length n of a `' ' * n` prefix prepended to the first line (in the written string) or to the following lines (in the "
+                 "re-indenting substitution) is subtracted in the width handed to textwrap (prefixes passed as initial_/subsequent_indent "
+                 "are counted by textwrap itself)", reference=5)
+    for fi in [f for f in p.all_functions() if f.module.name.startswith(("clikit.ui.components.labeled_paragraph", "clikit.ui.components.paragraph"))]:
+        wraps = [c for c in q.calls(fi) if isinstance(c.func, ast.Attribute) and isinstance(c.func.value, ast.Name) and c.func.value.id == "textwrap" and c.func.attr in ("wrap", "fill")]
+        if not wraps:
+            continue
+        defs = {}
+        for n in walk_no_nested(fi.node):
+            if isinstance(n, ast.Assign) and len(n.targets) == 1 and isinstance(n.targets[0], ast.Name):
+                defs.setdefault(n.targets[0].id, []).append(n.value)
+
+        def linear(e, depth=0):
+            """{var: coeff} or None"""
+            if isinstance(e, ast.Constant) and isinstance(e.value, int):
+                return {"1": e.value}
+            if isinstance(e, ast.Name):
+                d = defs.get(e.id, [])
+                if len(d) == 1 and depth < 6:
+                    sub = linear(d[0], depth + 1)
+                    if sub is not None:
+                        return sub
+                return {e.id: 1}
+            if isinstance(e, ast.Attribute):
+                return {"W" if e.attr == "width" else norm(e): 1}
+            if isinstance(e, ast.BinOp) and isinstance(e.op, (ast.Add, ast.Sub)):
+                a, b = linear(e.left, depth), linear(e.right, depth)
+                if a is None or b is None:
+                    return None
+                out = dict(a)
+                sg = 1 if isinstance(e.op, ast.Add) else -1
+                for k, v in b.items():
+                    out[k] = out.get(k, 0) + sg * v
+                return out
+            return None
+
+        def prefix_len(name):
+            d = defs.get(name, [])
+            if len(d) == 1 and isinstance(d[0], ast.BinOp) and isinstance(d[0].op, ast.Mult):
+                for a_, b_ in ((d[0].left, d[0].right), (d[0].right, d[0].left)):
+                    if isinstance(a_, ast.Constant) and a_.value == " " and isinstance(b_, ast.Name):
+                        return b_.id
+            return None
+
+        for w in wraps:
+            warg = w.args[1] if len(w.args) > 1 else next((k.value for k in w.keywords if k.arg == "width"), None)
+            if warg is None:
+                r.fail(fi, w, norm(w)[:60] + " default width", "%s wraps at textwrap's default width, not at the terminal's" % fi.short)
+                continue
+            lin = linear(warg)
+            if lin is None or "W" not in lin:
+                r.note("%s: width %s is not a linear form of the terminal width - not evaluated" % (fi.short, norm(warg)))
+                continue
+            inside = {prefix_len(k.value.id) for k in w.keywords if k.arg in ("initial_indent", "subsequent_indent") and isinstance(k.value, ast.Name)}
+            init_in = {prefix_len(k.value.id) for k in w.keywords if k.arg == "initial_indent" and isinstance(k.value, ast.Name)}
+            subs_in = {prefix_len(k.value.id) for k in w.keywords if k.arg == "subsequent_indent" and isinstance(k.value, ast.Name)}
+            # outside prefixes
+            first_out, next_out = set(), set()
+            for c in q.calls(fi):
+                if isinstance(c.func, ast.Attribute) and c.func.attr in ("write", "write_line") :
+                    for x in ast.walk(c):
+                        if isinstance(x, ast.Name) and prefix_len(x.id):
+                            first_out.add(prefix_len(x.id))
+                if isinstance(c.func, ast.Attribute) and c.func.attr == "sub" and len(c.args) >= 2:
+                    for x in ast.walk(c.args[1]):
+                        if isinstance(x, ast.Name) and prefix_len(x.id):
+                            next_out.add(prefix_len(x.id))
+            for which, outs, ins in (("first line", first_out, init_in), ("following lines", next_out, subs_in)):
+                for v in sorted(outs):
+                    if lin.get(v, 0) <= -1:
+                        r.ok("%s: %s prefix ' ' * %s paid for in width %s" % (fi.short, which, v, norm(warg)))
+                    elif v in ins and lin.get(v, 0) == 0:
+                        r.fail(fi, w, "%s prefixed twice by ' ' * %s" % (which, v), "%s: the %s get the prefix of length %s from textwrap and again outside it" % (fi.short, which, v))
+                    else:
+                        r.fail(fi, w, "%s prefix ' ' * %s not paid for in the width" % (which, v), "%s puts a prefix of %s blanks in front of the %s outside the wrapper, but the wrapping width `%s` "
+                               "does not subtract %s: with indentation the line can be wider than the terminal" % (fi.short, v, which, norm(warg), v))
+
+    # ---------------------------------------------------------------- R7
+    from .c17 import render_readonly_rule
+
+    r = ctx.rule("C13-R7", "READONLY", "rendering a help page succeeds the second time too: render() leaves the help object's own state as it found it "
+                 "(a builder kept on the object and extended per render raises 'option exists already' on the next render; same rule as C17-R5)", reference=2)
+    render_readonly_rule(ctx, r, mod_pred=lambda m: m.startswith("clikit.ui.help"))
+    if r.n == 0:
+        r.fail(ab, ab.node, "no help component", "no help component with a render() found")
     return ctx.results
 
 
